@@ -46,9 +46,20 @@ class Check:
         self.extra = {}
         self.rules_run = []
         self._seen = set()
+        self.profile = "dev"     # build configuration whose MIR is being analysed
+        self._prefix = ""
+        self.configs = ["dev"]
+
+    def begin_config(self, profile, prog):
+        """Re-run the rules on another build configuration; obligation keys are prefixed with the configuration."""
+        self.profile = profile
+        self.prog = prog
+        self._prefix = profile + "/"
+        self.configs.append(profile)
 
     # ---- recording
     def _add(self, rule, key, where, status, reason):
+        key = self._prefix + key
         k = (rule, key)
         n = 1
         base = key
@@ -77,6 +88,8 @@ class Check:
                   "anchor not found in the fact base: %s%s" % (what, (" (" + searched + ")") if searched else ""))
 
     def floor(self, rule, n, floor, what):
+        if isinstance(floor, dict):
+            floor = floor.get(self.profile, floor["dev"])
         if n < floor:
             self._add(rule, "floor:" + what, "", "floor",
                       "rule matched %d instance(s) of '%s' but at least %d were counted by hand on the reference tree" % (n, what, floor))
@@ -151,7 +164,7 @@ def finish(ck, t0, facts_info, cmd, level_text=""):
         r["instances"] += 1
         if o.status == "ok":
             r["ok"] += 1
-    distinct = len({(o.rule, o.key) for o in ck.obs if not o.key.startswith("floor:")})
+    distinct = len({(o.rule, o.key) for o in ck.obs if "floor:" not in o.key})
     units = [u for u in ck.prog.unit_names()]
     coverage = {
         "obligations": len(ck.obs),
@@ -169,6 +182,7 @@ def finish(ck, t0, facts_info, cmd, level_text=""):
         "units_analysed": ["%s%s%s" % (u[0], " (test)" if u[2] else "", " (duplicate host build)" if u[3] else "") for u in units],
         "functions_in_fact_base": len(ck.prog.bodies),
         "facts": facts_info,
+        "build_configurations_analysed": ck.configs,
         "exhaustive": False,
         "failed": [o.as_json() for o in failed][:50],
         "known_findings_matched": [o.full_key() for o in listed],
